@@ -18,7 +18,7 @@ RULE = ('case = up to 6 requests with patterns sharing prefixes of length 1..4 a
         '(request script, loss script, observed transmission-time vector).')
 ASSUMPTIONS = ['virtual time: library processing takes zero time, so retransmission instants are exact',
                'two requests with identical patterns pending at once are not generated (the library keys timers by pattern)']
-REQUIRED = ['mon.answers_that_were_the_first_packet_the_object_ever_received',
+REQUIRED = ['mon.pairs_of_requests_pending_with_the_same_expectation', 'mon.answers_that_were_the_first_packet_the_object_ever_received',
             'mon.set_up_requests_of_the_library_on_a_link_without_delivery_guarantee',
             'mon.cases_with_a_second_crazyflie_object_waiting_for_the_same_answer',
             'mon.requests_issued_from_the_callback_of_the_previous_answer_with_the_same_expectation',
@@ -42,6 +42,7 @@ def cases(tier, seed):
     out += [{'seed': seed * 11 + i, 'kind': ('failopen', 'lostreopen')[i % 2], 'sched': rnd.choice(('rtb', 'random', 'pct'))}
             for i in range(60 if tier == 'quick' else 400)]
     out += [{'seed': seed * 13 + i, 'kind': 'firstreply', 'sched': rnd.choice(('rtb', 'random', 'pct'))} for i in range(24 if tier == 'quick' else 200)]
+    out += [{'seed': seed * 17 + i, 'kind': 'twins', 'sched': rnd.choice(('rtb', 'random', 'pct'))} for i in range(24 if tier == 'quick' else 200)]
     out += [{'seed': seed * 7 + i, 'kind': 'radioflag'} for i in range(2 if tier == 'quick' else 12)]
     out += [{'seed': seed * 5 + i, 'kind': 'usbclose'} for i in range(2 if tier == 'quick' else 12)]
     return out
@@ -350,8 +351,66 @@ def run_firstreply(desc, ctx):
                          'late_offsets': late[:5]}, replay=rp)
 
 
+def run_twins(desc, ctx):
+    """Two requests that expect the same answer are pending together (two threads reading the same thing): neither is
+    answered, both keep being retransmitted at their interval."""
+    from vf import detsched as ds, simlink
+    from cflib.crazyflie import Crazyflie
+    from cflib.crtp.crtpstack import CRTPPacket
+    rnd = random.Random(desc['seed'])
+    prof = gen.profile(desc['seed'], 1, 1, proto=10)
+    T = rnd.choice((0.05, 0.2, 1.0))
+    pat = [rnd.randrange(1, 250) for _ in range(rnd.randint(1, 3))]
+    chan = rnd.randrange(4)
+    dev = Responder(prof, {})
+    spec = simlink.LinkSpec(dev, needs_resending=True, latency=0.0)
+    uri = 'sim://c10twins'
+    simlink.SIMS[uri] = spec
+    gap = rnd.choice((0.0, 0.25 * T, 0.5 * T))
+    ob = {}
+
+    def fn(s):
+        dev.now = lambda: s.now
+        cf = Crazyflie()
+        done = ds.Event()
+        cf.connected.add_callback(lambda u: done.set())
+        cf.open_link(uri)
+        if not done.wait(300.0):
+            ob['problem'] = 'connect failed'
+            return
+        s.sleep(0.35)
+        ob['t0'] = s.now
+        for uid in (200, 201):
+            pk = CRTPPacket()
+            pk.set_header(PORT, chan)
+            pk.data = bytes(pat) + bytes([uid])
+            cf.send_packet(pk, expected_reply=tuple(pat), timeout=T)
+            if uid == 200 and gap:
+                s.sleep(gap)
+        s.sleep(6 * T + 0.01)
+        ob['t1'] = s.now
+        cf.close_link()
+        s.sleep(0.3)
+    _, abort, sch = harness.sched_case(fn, seed=desc['seed'], policy=desc['sched'], horizon=2000.0)
+    ctx.evals()
+    rp = dict(desc)
+    if abort is not None or sch.deaths or ob.get('problem'):
+        ctx.violate('retry:hang:twins', {'abort': str(abort), 'deaths': [d[1] for d in sch.deaths][:2], 'problem': ob.get('problem')}, replay=rp)
+        return
+    ctx.count('mon.pairs_of_requests_pending_with_the_same_expectation')
+    ctx.nontrivial(('twins', tuple(pat), T, gap, sch.signature()))
+    for uid in (200, 201):
+        n = len([t for t in spec.tx if (t[2] >> 4) & 0xF == PORT and t[3] and t[3][-1] == uid and t[0] <= ob['t1']]) - 1
+        if n < 4:
+            ctx.violate('retry:unanswered-request-not-retried-for-as-long-as-the-link-is-open',
+                        {'two_requests_pending_with_the_same_expectation': True, 'uid': uid, 'T': T, 'retransmissions_in_6_intervals': n,
+                         'sent_apart_by': gap}, replay=rp)
+
+
 def run(desc, ctx):
     harness.init()
+    if desc.get('kind') == 'twins':
+        return run_twins(desc, ctx)
     if desc.get('kind') == 'firstreply':
         return run_firstreply(desc, ctx)
     if desc.get('kind') in ('failopen', 'lostreopen'):
